@@ -13,25 +13,108 @@ TB = ("Trusted: Lean 4.33 kernel (axioms propext, Classical.choice, Quot.sound o
       "Go regexp, publicsuffix, netip, gzip, the Go runtime (DESIGN.md section 3).")
 
 # property -> (claimed?, level category, text, technique, note)
+TECH = "Lean 4 theorems over a hand-written executable model + differential correspondence (Go vs model vs spec) + regenerated facts"
+
 CLAIMS = {
-    "C16": (True, "proof",
-            "Lean theorems c16_bits/c16/c16_mono/c16_flags/c16_nonexception over EVERY option mask (not only the 2^9 named subsets) "
-            "prove that the modelled GetCosmeticOption equals 'All minus the union of what each modifier disables' and is monotone; "
-            "the model is tied to the Go code by the regenerated option/cosmetic bit constants and by an exhaustive correspondence run "
-            "of all 512 modifier subsets as real rule texts through NewMatchingResult().GetCosmeticOption() and Engine.GetCosmeticResult.",
-            "Lean 4 proof over a hand-written model + exhaustive differential correspondence + regenerated constants",
-            TB),
+    "C01": (True, "proof",
+            "Theorems c01_sound/c01_complete/c01 (UF/Props/C01.lean): for EVERY hash function (coherent between FastHash and FastHashBetween; even a constant one), every "
+            "window length, every rule list and insertion order and every request, the texts reported by the modelled engine (shortcut table with histogram, "
+            "domains table, sequential table) equal the linear scan; c01_djb2 instantiates the real djb2 and the regenerated shortcutLength; c01_insertion_order. "
+            "Hypotheses made explicit and discharged elsewhere: retrieval (C11), parser well-formedness of $domain values. Tie: whole-scenario lines through the real "
+            "NetworkEngine.MatchAll (all three tables, engineered window and text hash collisions, last-window URLs) vs model vs spec, plus the bundled 38k-rule list as a search aid.",
+            TECH, TB),
+    "C02": (True, "proof",
+            "isHostLevel_iff (the mask idiom = 'no $domain, not both content-type lists, no disabled options, enabled within important|badfilter') and c02/c02_djb2: "
+            "for every hash the DNS result (network rule texts as a set, NetworkRule nil-ness and class, V4/V6 host rules, matched) equals the reference scan. "
+            "GetDNSBasicRule enters as a parameter constrained by BasicRespectsTexts (its own theorems are C06/C07). Tie: real DNSEngine.MatchRequest on mixed lists "
+            "with colliding host names.", TECH, TB),
     "C03": (True, "proof",
-            "Lean theorems (UF/Props/C03.lean, 14 obligations): c03_nopanic (patternToRegexp never slices out of range, all byte strings), "
-            "c03_text_closed_form (the rewritten text is start ++ one fixed piece per pattern byte ++ end), c03_text (for every ASCII pattern the text handed "
-            "to regexp.Compile PARSES to exactly the expression of the pattern's mask tokens -- no pattern character is read as a regex operator), "
-            "c03_ast (that expression accepts, under unanchored search, exactly the documented mask language, for ALL subjects without a line feed), and "
-            "c03 (compiled matcher = mask language for the pattern as written, '/*' tail included); plus decided fact obligations tying the proof to the "
-            "current Regex*/Mask* constants and the 256-byte escape table regenerated from /repo. Tie to Go: exact text equality of patternToRegexp vs model "
-            "(exhaustive over <=2-char patterns and short token strings, sampled beyond) and acceptance of the rule's real compiled regexp vs model vs spec on "
-            "pattern-derived subjects. Go's regexp engine itself is modelled (UF/Model/Regex*.lean), validated differentially against the real engine.",
-            "Lean 4 proof (parser + semantics of a regex model, induction over mask tokens) + differential correspondence + regenerated constants",
+            "c03_nopanic, c03_text_closed_form, c03_text (the text handed to regexp.Compile PARSES to exactly the expression of the pattern's mask tokens: no pattern "
+            "character is read as a regex operator), c03_ast (that expression accepts exactly the documented mask language, all subjects without LF), c03 (as written, "
+            "'/*' tail included) + decided fact obligations on the regenerated Regex*/Mask* constants and the 256-byte escape table. Tie: exact text equality of "
+            "patternToRegexp vs model (exhaustive for short patterns/token strings), acceptance of the rule's real compiled regexp vs model vs spec.",
+            "Lean 4 proof (regex parser + semantics model, induction over mask tokens) + differential correspondence + regenerated constants",
             TB + " Domain: ASCII patterns, subjects without LF; RE2 semantics modelled for the subset the mask compiler emits."),
+    "C04": (True, "proof",
+            "c04 (model of NetworkRule.Match = per-modifier set-membership reference, for well-formed rules and requests in the domain), c04_text (end to end from the "
+            "rule TEXT through the modelled parser), merge_iff_common / bsearch_iff_mem / domain_test_iff / wildcard_test_iff / reqtype_iff, c04_parser_sorts, and the "
+            "order-independence theorems c04_perm*, c04_unreachable_options. Tie: the modelled parser reproduces Go's parsed rule field by field (grammar, mutated and "
+            "real-list texts), Match vs model vs spec on requests aimed at the rule's own values, text-level reference, permutation asserts.",
+            TECH, TB + " Domain: one content-type bit, sorted request tags, hostnames not starting with '.'; the pattern matcher is a parameter (proved for masks in C03)."),
+    "C05": (True, "proof",
+            "c05_re / c05_runs / c05_regex_shortcut (every literal the parsed expression requires is a factor of every accepted, lower-cased string -- for an ARBITRARY "
+            "candidate generator), c05_mask_* (findShortcut returns a maximal run free of * ^ |, no slice panic), c05 (Match is unchanged without the shortcut test). "
+            "Tie: Go's own regexp/syntax tree of every regex rule (bundled lists + grammar) converted to the model and checked against the real engine; the rule's Shortcut "
+            "must be justified by a required literal; rule.Match vs pattern acceptance on members of the language.",
+            TECH, TB),
+    "C06": (True, "proof",
+            "c06_web / c06_dns (model of NewMatchingResult+GetBasicResult / GetDNSBasicRule = documented precedence class), c06_perm / c06_dns_perm / c06_split (order and "
+            "list split independence), c06_basic_effective. $replace (unreachable from rule text) is a stated hypothesis, with *_all variants covering it. Tie: real "
+            "NewMatchingResult, GetDNSBasicRule, Engine.MatchRequest, DNSEngine.MatchRequest on multisets over all feature combinations in several permutations.",
+            TECH, TB),
+    "C07": (True, "proof",
+            "higher_iff (IsHigherPriority = lexicographic comparison of (class, redirect, specific, modifier count)), hence c07_irrefl, c07_asymm, c07_trans, "
+            "c07_incomp_trans for EVERY pair/triple of rule records; c07_add_* (adding a counted feature ranks strictly higher); c07_selected_maximal, c07_perm. Fact "
+            "obligation: IsHigherPriority reads the same fields from both operands (go/ast). Tie: the whole Go priority matrix over a 2304-rule feature pool (thorough) vs "
+            "model, Go-side law asserts, and the real selection loops.", TECH, TB + " 'Adding a modifier' is stated on rule records (document-only options replace content types at text level)."),
+    "C08": (True, "proof",
+            "removeBad_eq (filter formulation for any number of badfilter rules), negates_iff (all matching-relevant fields), c08_twin / c08_twins (adding k twin pairs at "
+            "any positions changes nothing), c08_other, c08_verdict_*, c08_rewrites_* (DNSRewrites applies $badfilter: D14). Fact obligation: negatesBadfilter reads every "
+            "matching-relevant field. Tie: VerifNegatesBadfilter / VerifRemoveBadfilterRules, twin pairs through the real engines.", TECH, TB),
+    "C09": (True, "proof",
+            "c09 (DNSRewrites = reference filter of DNSRewritesAll as SEQUENCES, for every length), c09_noexc, c09_perm, c09_important, c09_empty_exception. Tie: "
+            "exhaustive enumeration of all sequences up to length 4 (quick) / 5 (+6 over a sub-alphabet, thorough) over a 24-shape alphabet and sampled long ones, half "
+            "through a real DNSEngine.", TECH, TB),
+    "C10": (True, "proof",
+            "c10 (every accepted $dnsrewrite value has the published shape incl. uint16 bounds, for EVERY byte string and address oracle), c10_total (no slice/index "
+            "failure), c10_dichotomy, c10_value_by_type, fact obligations on the handler-map keys and keyword list. Tie: full rewrite dump of loadDNSRewrite and of "
+            "NewNetworkRule vs model on grammar-generated and mutated values.", TECH, TB),
+    "C11": (True, "proof",
+            "pack_unpack / pack_inj (all int32 pairs, bit extensionality), trimSpace_* , scan_retrieve_string, retrieveFile_eq_string (EVERY chunking of the block reads), "
+            "c11 / c11_history (every scanned rule is retrieved by its index from any reachable cache state), c11_ref (scan = parse each line), c11_backing. Tie: real "
+            "RuleStorage over String and File lists (real temp files) incl. 10 KiB lines, extreme ids, garbage indices; TrimSpace vs model.",
+            TECH, TB + " rules.NewRule is a parameter assumed to trim first (proved for the parser model in C12)."),
+    "C12": (True, "proof",
+            "c12_total_* (no modelled slice/index ever fails, all byte strings), c12_outcomes / c12_text (a line yields nothing, an error, or a rule with the trimmed text "
+            "and the given id), c12_inert_* (blank, comment and rejected lines and CRLF do not change the accepted sequence). Tie: rules.NewRule vs model on arbitrary "
+            "bytes; crash stream building all engines under recover; inertness asserts on the real engines incl. >4 KiB noise lines.",
+            TECH, TB + " Crashes inside unmodelled library code can only be sampled."),
+    "C13": (True, "proof",
+            "fill_overwrites (refilling a pooled request leaves nothing of its previous content), c13 / c13_history / c13_fresh (answer after any history = answer on a "
+            "fresh state, cache invariant), rewrites_fresh (the capacity-limited reslice never touches the caller's slice). Fact obligations: the field list of "
+            "rules.Request equals the set assigned on refill (reflect + go/ast). Tie: histories of hundreds of mixed queries on real engines vs fresh engines, old "
+            "results re-serialised, abstract trace replayed on the model.", TECH, TB),
+    "C14": (True, "proof",
+            "PARTIAL BY NATURE. Proved: c14_sc -- for every schedule (any number of threads, any length) of the abstract query program, every finished query returns "
+            "the sequential answer; c14_granularity_matters (with seek and read as separate actions a 4-step schedule returns another rule's line). The atomicity "
+            "granularity is tied to the code by c14_fact_lock_table (go/ast: every access to the cache, file, buffer, regex, invalid flag lies inside its mutex region). "
+            "NOT provable here: absence of Go data races, sync.Pool/os.File/regexp internals -- explored by a -race build running 2-32 goroutines on cold String and "
+            "File storages with yield perturbation at four hook points, every answer compared with the sequential one.",
+            "Lean 4 proof over an abstract concurrent model + extracted lock-region facts + race-detector exploration",
+            TB + " The Go memory model and scheduler are outside the model; the race run is exploration, not proof."),
+    "C15": (True, "proof",
+            "c15 (generic and specific selector lists of the modelled cosmetic engine = reference computed with Match over all rules, every list, hostname, flag "
+            "combination, psl oracle), c15_match_probe, c15_flags. Tie: real CosmeticEngine.Match on generated lists x hostnames x all 8 flag combinations.", TECH, TB),
+    "C16": (True, "proof",
+            "c16_bits / c16 / c16_mono / c16_flags / c16_nonexception over EVERY option mask: GetCosmeticOption = All minus the union of what each modifier disables, "
+            "monotone. Tie: all 512 modifier subsets as real rule texts through NewMatchingResult().GetCosmeticOption() and Engine.GetCosmeticResult; regenerated bit constants.",
+            "Lean 4 proof over a hand-written model + exhaustive differential correspondence + regenerated constants", TB),
+    "C17": (True, "proof",
+            "extract_host (on the URL grammar), etld1_spec (hand-rolled eTLD+1 = suffix plus one label for every psl oracle), third_party_iff / third_party_symm, "
+            "lower_capped, fill_hostname, c17_request_eq_ref, c17_total. Tie: NewRequest / NewRequestForHostname field dumps vs model vs reference, Go-side asserts "
+            "against net/url and publicsuffix on hosts drawn from PSL rule shapes, URLs around the 4 KiB cap.", TECH, TB),
+    "C18": (True, "proof",
+            "c18_model_eq_spec (NewHostRule = blank-token reference on every line), split_tokens, c18_ip / c18_bare (the line grammar), c18_comment_inert, "
+            "host_match_iff, c18_groups, c18_dispatch / c18_not_comment_not_cosmetic. Tie: NewHostRule, NewRule and a real DNSEngine (listed, near-miss, hash-colliding "
+            "and unlisted names; V4/V6 group).", TECH, TB),
+    "C19": (True, "proof",
+            "c19_nopanic, c19_subset (every schedule of queries and close events: answer is a sublist of the fault-free answer), c19_truthful, c19_cached / "
+            "c19_cache_persists. Tie: file-backed lists on real temp files, Close() / closed descriptor before every query k, no panic, results within a linear-scan "
+            "oracle, cached rules still served, the model predicts the degraded answers and cache sizes.", TECH, TB),
+    "C20": (True, "proof",
+            "latin1_roundtrip, c20_index, c20 (filterHTML = body[:i] ++ tag ++ body[i:] for the first in-window marker counted in BYTES of the body, any window size; "
+            "length and headers), c20_count, c20_unchanged. Tie: proxy.VerifFilterHTML on bodies over all 256 byte values, plain and gzip, markers in every case around "
+            "the 16 KiB window, near-markers.", TECH, TB),
 }
 
 NA_REASON = "check under construction in this round (model/spec/theorems and correspondence ops being built; see DESIGN.md section 4); not claimed yet"
